@@ -138,14 +138,48 @@ func cmdValOp(in *bufio.Reader) {
 			res["err"] = errClass(err)
 			if c.Op == "string" || c.Op == "display" || c.Op == "abbrev" {
 				res["text"] = coqStr(text)
+				res["rawtext"] = []byte(text)
 				res["hasfloat"] = hasFloat(args[0])
 			} else {
 				res["val"] = coqValue(v)
+				res["jval"] = jsonOf(v)
 				res["kind"] = v.VerifKind()
 			}
 		}()
 		emit(res)
 	})
+}
+
+// jsonOf renders a value in the neutral JSON form jsonValue reads.
+func jsonOf(v value.Type) any {
+	switch v.VerifKind() {
+	case 0:
+		return []any{"nil"}
+	case 1:
+		i, _ := v.ToInt()
+		return []any{"int", strconv.Itoa(i)}
+	case 2:
+		b, _ := v.VerifFloatBits()
+		return []any{"float", strconv.FormatUint(b, 10)}
+	case 3:
+		s, _ := v.ToString()
+		bs := make([]int, len(s))
+		for i := 0; i < len(s); i++ {
+			bs[i] = int(s[i])
+		}
+		return []any{"str", bs}
+	case 4:
+		a, _ := v.ToArray()
+		es := make([]any, len(a))
+		for i, e := range a {
+			es[i] = jsonOf(e)
+		}
+		return []any{"arr", es}
+	case 5:
+		b, _ := v.ToBool()
+		return []any{"bool", b}
+	}
+	return []any{"fun"}
 }
 
 func hasFloat(v value.Type) bool {
